@@ -1,0 +1,13 @@
+//go:build verif
+
+// ASSUMED contract of an external (golang.org/x/exp/maps.Keys + slices.Sort): the engine has no model
+// of maps.Keys, and graph.checkCycle / graph.searchCycle iterate over MapKeys(...). Needed by
+// graph/verif_contracts.go; outside the validation/graph scope, see the report.
+
+package utils
+
+//@ func MapKeys
+//@   pure
+//@   ensures fresh(result)
+//@   ensures forall i int :: 0 <= i && i < len(result) ==> has(theMap, result[i])
+//@   ensures forall k string :: has(theMap, k) ==> exists i int :: 0 <= i && i < len(result) && result[i] == k
